@@ -347,7 +347,16 @@ def _unpack_simple_filter(
     else:
         filter_type = None
 
-    attribute = current_view[:attribute_end].tobytes().decode("utf-8")
+    try:
+        attribute = current_view[:attribute_end].tobytes().decode("utf-8")
+    except UnicodeDecodeError:
+        raise FilterSyntaxError(
+            "Filter attribute is invalid",
+            filter=filter,
+            offset=offset,
+            length=attribute_end,
+        )
+
     if filter_type != ":" and not _ATTRIBUTE_PATTERN.match(attribute):
         raise FilterSyntaxError(
             "Filter attribute is invalid",
@@ -743,9 +752,26 @@ class LDAPFilter:
             LDAPFilter: The converted filter.
         """
         filter = filter.strip()
-        b_filter = filter.encode("utf-8", errors="surrogateescape")
+        try:
+            b_filter = filter.encode("utf-8", errors="surrogateescape")
+        except UnicodeEncodeError as e:
+            raise FilterSyntaxError(
+                "Filter contains a character that cannot be encoded",
+                filter=filter,
+                offset=e.start,
+                length=e.end - e.start,
+            )
+
         filter_view = memoryview(b_filter)
-        filter_obj, consumed = _unpack_filter(filter, filter_view, 0, len(b_filter))
+        try:
+            filter_obj, consumed = _unpack_filter(filter, filter_view, 0, len(b_filter))
+        except RecursionError:
+            raise FilterSyntaxError(
+                "Filter is nested too deeply",
+                filter=filter,
+                offset=0,
+                length=len(b_filter),
+            )
         if consumed < len(b_filter):
             raise FilterSyntaxError(
                 "Extra data found at filter end",
